@@ -8,6 +8,9 @@
 //!
 //!   base := fix/<path under repo/fixtures> | elf:<k=v;…> | macho:<k=v;…> | sym:<k=v;…> | jit:<k=v;…>
 //!         | raw:<hex> | missing | fat:[<ref>|<ref>|…] | trunc:<n>:<base>
+//!         | pad:<n>:<fill hex>:<base>     n bytes appended (multi-MiB debuglink companions)
+//!         | idx:<base>                    the .symindex the real BreakpadIndexCreator builds from <base>
+//!         | dyld:<base>                   <base> offered as a dyld shared cache (InDyldCache candidate / cache path)
 //!   ref  := base (+p<offset>:<hex>)*            (byte patches applied last)
 //!
 //! Next to its reference every candidate carries its *abstract description* — what the real parsers
@@ -19,7 +22,9 @@
 //! The Lean model computes the expected outcome from the abstract descriptions only.
 //!
 //! ops (first line = header, `header_lines` = 1):
-//!   symmap <DEBUGID>                                   then `cand <ref> <symview>`*
+//!   symmap <DEBUGID>                                   then `cand <ref> <symview> truth=<DEBUGID from the spec|-> mark=<marker|->`*
+//!   symidx <DEBUGID>                                   then `cand <symref> own=<ID> side=<ok:ID|open|parse> idx=<ref> mark=<marker> stale=<0|1>`*
+//!   dyld <sym|bin> <disamb>                            then `cache <ref> <symview|binview>`*
 //!   binary name=<0|1> id=<DEBUGID|none> code=<codeid|none> arch=<arch|none>   then `cand <ref> <binview>`*
 //!   fat <disamb>                                       then `member <ref> <arch|-> <UUID|-> <symres> <binres>`*
 //!        disamb := none | arch:<a> | best:<a>,<b>,… | native | id:<DEBUGID>
@@ -29,7 +34,8 @@
 //!        then `cand <ref> readable=<0|1> object=<0|1> buildid=<hex|none> marker=<marker|?>`*
 //!   pdb <mainref> probe=<hex> id=<DEBUGID> base=<marker>   then at most one `cand <ref> <symview> marker=<marker|?>`
 //! out:
-//!   symmap:  `ok <DEBUGID> from <k>` | `err <kind> [<kind>…]`
+//!   symmap / symidx:  `ok <DEBUGID> from <k> [shows <marker>]` | `err <kind> [<kind>…]`
+//!   dyld:    `ok <DEBUGID|none>` | `err <kind>`
 //!   binary:  `ok <DEBUGID|none> <codeid|none>` | `err <kind>`
 //!   fat:     `bin ok <arch|none> <DEBUGID|none> <codeid|none>` | `bin err <kind>`, then `sym ok <DEBUGID>` | `sym err <kind>`
 //!   debuglink / sup / pdb:  `id <DEBUGID>` and `used <marker>`  |  `err <kind>`
